@@ -1183,6 +1183,7 @@ func TestCeremony(t *testing.T) {
 	g := genCase(curves, 10, 16)
 	rec.Check(t, "mpc", ev.N(48, 1600), func(rt *rapid.T) {
 		c := g.Draw(rt, "case")
+		rec.Begin("mpc", c)
 		o, c := runMin(c, rec)
 		rec.Report(rt, "mpc", c, o)
 	})
